@@ -22,7 +22,7 @@ import (
 
 func TestMain(m *testing.M) { fx.Main(m, "C10") }
 
-var allTypes = []string{"tcp", "tcp-group", "udp", "http", "http-group", "https", "tcpmux", "tcpmux-group", "stcp", "sudp", "xtcp"}
+var allTypes = []string{"tcp", "tcp-group", "tcp-any", "tcp-group-any", "udp-any", "udp", "http", "http-group", "https", "tcpmux", "tcpmux-group", "stcp", "sudp", "xtcp"}
 
 type Case struct {
 	Types     []string `json:"types"`      // proxies registered by the session under test, in order
@@ -38,7 +38,7 @@ type Case struct {
 func portUsers(types []string) int {
 	n := 0
 	for _, t := range types {
-		if t == "tcp" || t == "tcp-group" || t == "udp" {
+		if t == "tcp" || t == "tcp-group" || t == "udp" || strings.HasSuffix(t, "-any") {
 			n++
 		}
 	}
@@ -56,6 +56,9 @@ func gen(t *rapid.T) Case {
 			c.Types = append(c.Types, ty)
 		}
 	}
+	// proxies with a server-chosen port register after those with fixed ports, so that the server's choice cannot
+	// take a port a later fixed request of the same script needs
+	sort.SliceStable(c.Types, func(i, j int) bool { return !strings.HasSuffix(c.Types[i], "-any") && strings.HasSuffix(c.Types[j], "-any") })
 	c.DropAfter = rapid.IntRange(0, n+2).Draw(t, "dropafter")
 	c.Cycles = rapid.SampledFrom([]int{1, 1, 1, 2, 2, 3, 3, 1, 2, 12}).Draw(t, "cycles")
 	if c.Path == "hbtimeout" {
@@ -82,6 +85,12 @@ func pxyMsg(s *fx.Server, ty string, conflict bool) *msg.NewProxy {
 		m.ProxyType, m.RemotePort, m.Group, m.GroupKey = "tcp", s.AllowPort(3), "xg", "k"
 	case "udp":
 		m.ProxyType, m.RemotePort = "udp", s.AllowPort(2)
+	case "tcp-any": // remote port 0: the server chooses one, and must take it back
+		m.ProxyType, m.RemotePort = "tcp", 0
+	case "tcp-group-any":
+		m.ProxyType, m.RemotePort, m.Group, m.GroupKey = "tcp", 0, "xg0", "k"
+	case "udp-any":
+		m.ProxyType, m.RemotePort = "udp", 0
 	case "http":
 		m.ProxyType, m.CustomDomains, m.Locations = "http", []string{"x-http.test", "x2-http.test"}, []string{"/", "/a"}
 		if noLocations {
